@@ -118,6 +118,12 @@ class _Runner(_Processor):
                     raise
             else:
                 await self._limiter.acquire()
+            if params.is_overdue:
+                # time-to-live has run out while the message was waiting in the consumer's
+                # buffer or for a free slot - it must not be executed anymore
+                self._limiter.release()
+                await asyncio.shield(self._conn.message_broker.nack(key))
+                continue
             if self.max_tasks_exceeded:
                 # tasks which are already running use up the whole limit:
                 # give the message back and wait for the runner to be stopped
